@@ -9,6 +9,7 @@ import sys, os
 sys.path.insert(0, os.path.join(os.path.dirname(os.path.abspath(__file__)), "..", "lib"))
 from vlib import *
 from modcorpus import *
+import ext_layer            # extensibility layer (lib/ext_layer.py, notes/design/EXT.md)
 
 
 def has_semi(tree):
@@ -166,9 +167,6 @@ def main(tier):
                           "command_line": line, "c": o, "model": exp_f, "standard": std}
                 if got != exp_f:
                     # model (faithful) and code differ: is the property itself violated at this input?
-                    if s == "uper" and (ref_to_choice(m, c["tn"]) or uses_choice_ref(m, dict(m["defs"])[c["tn"]])) and got == "ENCFAIL":
-                        run.known_finding("C02-choice-ref-no-per", line)
-                        continue
                     bad = (got != "OK " + std)
                     run.violation("correspondence:Rt.%s" % s, dict(replay, what="C encoder output differs from the model" + (" and from the standard" if bad else "")),
                                   no_input=not bad)
@@ -181,6 +179,7 @@ def main(tier):
                         run.violation("oracle:%s" % s, dict(replay, what="bytes differ from the standard encoding"))
             if i < 3:
                 run.sample({"type": c["ts"], "value": c["vs"][:80], "der": c["der"][:80], "uper": c["uper"][:60], "oer": c["oer"][:60]})
+    ext_layer.run_c02(run, rng, tier)
     tb = ["Coq 8.16.1 kernel; vm_compute for refuted witnesses and Examples", "axioms under Print Assumptions: " + (", ".join(sorted(axioms)) or "none (Closed under the global context)"),
           "extraction: ExtrOcamlBasic only, per-area files; OCaml 4.13.1; zarith for I/O in drvlib.ml",
           "lib/modgen.py: generator and its own implementation of X.680 tagging (effective tags given to the model)",
